@@ -643,6 +643,10 @@ func (b *bitstream) ReadTimestamp() (Timestamp, error) {
 			return Timestamp{}, err
 		}
 		length -= vlength
+		if val > 10000 {
+			// No calendar field is larger than the UTC year of 9999-12-31T23:59-00:01.
+			return Timestamp{}, &SyntaxError{"invalid timestamp - calendar field out of range", b.pos - vlength}
+		}
 		ts[i] = int(val)
 
 		// When i is 3, it means we are setting the hour component. A timestamp with an hour
